@@ -172,6 +172,47 @@ Definition validate_uint (ro : bool) (dsz : nat) (val : N) (data : list N) : vre
        | Some d => VOk d dsz
        end.
 
+(* decode + validate one argument field for variable v (the switch of parse_write_args,
+   cat.c:1372-1422): (status, new storage, write_size, characters consumed) *)
+Definition decode_var (v : var) (rest : list N) (data : list N) : pstat * list N * nat * nat :=
+  let ro := vaccess_beq (v_access v) RO in
+  match v_type v with
+  | VInt =>
+    let '(pst, val, n) := parse_int rest in
+    match pst with
+    | SOk _ => match validate_int ro (v_size v) val data with
+               | VFault => (SFault, data, O, n)
+               | VErr => (SErr, data, O, n)
+               | VOk d ws => (pst, d, ws, n)
+               end
+    | _ => (pst, data, O, n)
+    end
+  | VUint =>
+    let '(pst, val, n) := parse_uint rest in
+    match pst with
+    | SOk _ => match validate_uint ro (v_size v) val data with
+               | VFault => (SFault, data, O, n)
+               | VErr => (SErr, data, O, n)
+               | VOk d ws => (pst, d, ws, n)
+               end
+    | _ => (pst, data, O, n)
+    end
+  | VHex =>
+    let '(pst, val, n) := parse_hex rest in
+    match pst with
+    | SOk _ => match validate_uint ro (v_size v) val data with
+               | VFault => (SFault, data, O, n)
+               | VErr => (SErr, data, O, n)
+               | VOk d ws => (pst, d, ws, n)
+               end
+    | _ => (pst, data, O, n)
+    end
+  | VBufHex =>
+    let r := parse_bufhex rest data ro (v_size v) in (b_st r, b_data r, b_wsize r, b_n r)
+  | VBufStr =>
+    let r := parse_bufstr rest data ro (v_size v) in (b_st r, b_data r, b_wsize r, b_n r)
+  end.
+
 (* ================= printing into a buffer ================= *)
 
 Record cur := mkCur { cu_buf : list N; cu_pos : nat; cu_fault : bool }.
